@@ -27,7 +27,8 @@ RULE = (
     "Hypothesis: meta-models from vlib.mmgen (accepted), the same with 2-4 near-miss mutations (vlib.mmmut + planted "
     "constructor/property mismatches, duplicate classes, unknown types; 'rejected'), models with implementation-specific "
     "functions whose snippets are missing (generator errors), snippet directories with >=2 invalid keys, and the "
-    "repository's own fixtures (dev/test_data/main/<target>/expected/<case>, aas_core_meta.v3 in the thorough tier) "
+    "repository's own fixtures (dev/test_data/main/<target>/expected/<case>, aas_core_meta.v3 in the thorough tier) plus three "
+    "fixed regression inputs (constructor/property mismatch, malformed :attr: reference, invalid snippet keys) "
     "x targets (rotating, all 8 in thorough) x configurations. Every (model, target) is run in (a) four batch child "
     "processes with PYTHONHASHSEED 0..3 through main.main argv parsing (audit hook determines the files written), "
     "differing also in output path length, pre-populated output dir (noise incl. read-only files / stale output of "
@@ -208,6 +209,22 @@ def cases(draw: Any) -> Dict[str, Any]:
         "kind": kind, "text": text, "extra": extra, "orders": orders, "muts": muts,
         "n_entities": [len(spec.classes), len(spec.consts), len(spec.fns)],
     }
+
+
+_CORNER_HEAD = "from enum import Enum\nfrom typing import List, Optional\n\nfrom icontract import invariant, DBC\n\n\n"
+_CORNER_TAIL = '\n\n__version__ = "V1"\n\n__xml_namespace__ = "https://example.com/ns/1"\n'
+CORNERS = [
+    # constructor arguments != properties: the message printed a set
+    (_CORNER_HEAD + "class Foo(DBC):\n    aaa: int\n    bbb: str\n    ccc: int\n\n"
+     "    def __init__(self, aaa: int, bbb: str, ccc: int, eee: int) -> None:\n"
+     "        self.aaa = aaa\n        self.bbb = bbb\n        self.ccc = ccc\n" + _CORNER_TAIL, {}),
+    # malformed attribute references in descriptions: the message quoted a contract violation with an object address
+    (_CORNER_HEAD + 'class C(DBC):\n    """:attr:`C.x.y`"""\n\n    x: int\n\n    def __init__(self, x: int) -> None:\n'
+     '        self.x = x\n\n\nclass D(DBC):\n    """Refer to :attr:`C.x` and :attr:`.x`."""\n' + _CORNER_TAIL, {}),
+    # several invalid snippet keys: the errors were listed in directory order
+    (_CORNER_HEAD + "class Foo(DBC):\n    aaa: int\n\n    def __init__(self, aaa: int) -> None:\n        self.aaa = aaa\n"
+     + _CORNER_TAIL, {"bad key.txt": "x", "1x.txt": "x", "a-b.txt": "x", "dir-x/c.txt": "x", "binary.bin": BIN_MARK}),
+]
 
 
 def fixtures(with_big: bool) -> List[Tuple[str, str]]:
@@ -705,6 +722,12 @@ def shard(ctx: runner.Ctx) -> None:
         targets = [sut.TARGETS[(k + d) % 8] for d in range(2 if ctx.quick else 8)]
         for t in targets:
             units.append({"case": c, "target": t, "fixture": None})
+    if ctx.shard == 0:
+        # fixed corner cases: inputs on which non-determinism was found before (kept as regression cases)
+        for k, (text, extra) in enumerate(CORNERS):
+            units.append({"case": {"kind": "corner", "text": text, "extra": extra, "orders": [11, 22, 33, 44, 55, 66],
+                                   "muts": [], "n_entities": [2, 0, 0]},
+                          "target": sut.TARGETS[(3 * k) % 8], "fixture": None})
     fx = fixtures(with_big=not ctx.quick)
     rnd = random.Random(ctx.seed)
     mine = [f for j, f in enumerate(fx) if j % ctx.nshards == ctx.shard]
